@@ -451,6 +451,39 @@ EXTRA_CASES = [
 ]
 
 
+# round-5 shapes: a '-' line whose code begins with a unary minus or plus (the marker is one character); fillers that are
+# instantiations with several type arguments; a name that is a metavariable of an earlier change and plain code in a later
+# one; statements after an elision that begin with '*', '<-', '(' or a type keyword
+EXTRA_CASES += [
+    ("minus-line-unary-minus", "@@\n@@\n--1\n+neg\n",
+     "package p\n\nfunc h() {\n\ta := 1\n\tb := -1\n\tc := - 1\n\td := []int{1, -1, 1 - 1}\n\tuse(a, b, c, d)\n}\n"),
+    ("minus-line-unary-mv", "@@\nvar x expression\n@@\n--x\n+neg(x)\n",
+     "package p\n\nfunc h() {\n\ta := v\n\tb := -v\n\tc := -(v + 1)\n\td := w - v\n\tuse(a, b, c, d)\n}\n"),
+    ("plus-line-unary-plus", "@@\nvar x expression\n@@\n-pos(x)\n++x\n",
+     "package p\n\nfunc h() {\n\ta := pos(v)\n\tb := pos(v + 1)\n\tuse(a, b)\n}\n"),
+    ("minus-line-not-bitnot", "@@\nvar x expression\n@@\n-!x\n+not(x)\n\n@@\nvar y expression\n@@\n-^y\n+inv(y)\n",
+     "package p\n\nfunc h() {\n\ta := !ok\n\tb := ok\n\tc := ^m\n\td := m ^ n\n\tuse(a, b, c, d)\n}\n"),
+    ("filler-index-list", "@@\nvar x expression\n@@\n-wrap(x)\n+unwrap(x)\n",
+     "package p\n\nfunc h() {\n\t_ = wrap(pair[int, string])\n\t_ = wrap(single[int])\n\t_ = wrap(both[int, string](nil, nil))\n\t_ = wrap(m[k])\n\t_ = wrap(tri[a, b, c]{})\n}\n"),
+    ("fun-index-list", "@@\nvar f expression\n@@\n-f(nil, nil)\n+f(nil)\n",
+     "package p\n\nfunc h() {\n\t_ = both[int, string](nil, nil)\n\t_ = one[int](nil, nil)\n\t_ = plain(nil, nil)\n\t_ = pkg.Gen[a.T, b.T](nil, nil)\n}\n"),
+    ("mv-name-reused-as-code", "@@\nvar x expression\n@@\n-foo(x)\n+bar(x)\n\n@@\n@@\n-x.Close()\n+x.Shutdown()\n",
+     "package p\n\nfunc h() {\n\tfoo(1)\n\tx.Close()\n\ty.Close()\n\tz.w.Close()\n}\n"),
+    ("mv-name-reused-ident-kind", "@@\nvar f identifier\n@@\n-f(1)\n+f(2)\n\n@@\nvar g identifier\n@@\n-f(g)\n+f(g, g)\n",
+     "package p\n\nfunc h() {\n\ta(1)\n\tf(b)\n\tq(b)\n\tf(3)\n}\n"),
+    ("stmt-after-dots-deref", "@@\n@@\n begin()\n ...\n-*p = 1\n+*p = 2\n",
+     "package p\n\nfunc h() {\n\tbegin()\n\tmid()\n\t*p = 1\n\tend()\n}\n"),
+    ("stmt-after-dots-recv", "@@\n@@\n begin()\n ...\n-<-done\n+<-finished\n",
+     "package p\n\nfunc h() {\n\tbegin()\n\tmid()\n\t<-done\n\tend()\n}\n"),
+    ("stmt-after-dots-paren", "@@\n@@\n begin()\n ...\n-(*f).Close()\n+(*f).Shut()\n",
+     "package p\n\nfunc h() {\n\tbegin()\n\tmid()\n\t(*f).Close()\n\tend()\n}\n"),
+    ("stmt-after-dots-funclit", "@@\n@@\n begin()\n ...\n-func() { a() }()\n+func() { b() }()\n",
+     "package p\n\nfunc h() {\n\tbegin()\n\tmid()\n\tfunc() { a() }()\n\tend()\n}\n"),
+    ("stmt-after-dots-bracket", "@@\n@@\n begin()\n ...\n-[]int{1}[0]++\n+[]int{2}[0]++\n",
+     "package p\n\nfunc h() {\n\tbegin()\n\tmid()\n\t[]int{1}[0]++\n\tend()\n}\n"),
+]
+
+
 def extra_pairs():
     # hand-written: the instantiated '+' pattern is admissible at every site, so the output must print and parse
     return [("extra:" + n, p.encode(), f.encode(), {"family": "extra:" + n, "must_parse": True}) for n, p, f in EXTRA_CASES]
